@@ -300,7 +300,7 @@ class RoundTrip(Family):
         raise NotImplementedError
 
     def count(self, tier):
-        return 60 if tier == "quick" else 500
+        return 120 if tier == "quick" else 1500
 
     def gen(self, rng, tier):
         return [{"obj": self.obj(rng, tier)} for _ in range(self.count(tier))]
@@ -443,6 +443,47 @@ class Matrix(RoundTrip):
         return ["layout=" + o.get("layout", "C"), "square" if len(set(o["shape"])) == 1 and len(o["shape"]) == 2 else "nonsquare"]
 
 
+class ValueSweep(RoundTrip):
+    """The premise parse(fmt v) = v over the whole exponent range, systematically: every power of ten
+    1e-323 .. 1e308 and every power of two 2^-1074 .. 2^1023 with both neighbours, both signs, plus the
+    worst-case list; packed into 1-way dense tensors (np.fromfile reads the values), sparse tensors
+    (float() of the last token of a line reads them) and Kruskal weights.  Thorough: all of them; quick:
+    a random tenth."""
+    name = "value_sweep"
+    theorems = ("C16_roundtrip_dense", "C16_roundtrip_sparse", "C16_roundtrip_ktensor")
+
+    def gen(self, rng, tier):
+        pool = list(_WORST)
+        for k in range(-323, 309):
+            p = float(f"1e{k}")
+            pool += [p, float(np.nextafter(p, math.inf)), float(np.nextafter(p, 0.0))]
+        for k in range(-1074, 1024):
+            p = math.ldexp(1.0, k)
+            pool += [p, float(np.nextafter(p, math.inf)), float(np.nextafter(p, 0.0))]
+        pool = [x for x in pool if math.isfinite(x) and x != 0.0]
+        pool = [x if rng.random() < 0.7 else -x for x in pool]
+        rng.shuffle(pool)
+        if tier == "quick":
+            pool = pool[:len(pool) // 10]
+        out = []
+        n = 48
+        for i in range(0, len(pool), n):
+            v = [bits(x) for x in pool[i:i + n]]
+            k = (i // n) % 3 if len(v) >= 8 else 0
+            if k == 0:
+                out.append({"obj": {"t": "dense", "shape": [len(v)], "data": v}})
+            elif k == 1:
+                subs = [[j] for j in range(len(v))]
+                rng.shuffle(subs)
+                out.append({"obj": {"t": "sparse", "shape": [len(v)], "subs": subs, "vals": v}})
+            else:
+                r = min(4, len(v))
+                rows = (len(v) - r) // r
+                out.append({"obj": {"t": "ktensor", "weights": v[:r],
+                                    "factors": [{"shape": [rows, r], "data": v[r:r + rows * r]}]}})
+        return out
+
+
 # ----------------------------------------------------------------------------
 # index base
 # ----------------------------------------------------------------------------
@@ -458,7 +499,7 @@ class IndexBase(Family):
 
     def gen(self, rng, tier):
         out = []
-        for _ in range(60 if tier == "quick" else 500):
+        for _ in range(100 if tier == "quick" else 1200):
             o = strip_layout(_any_obj(rng, tier))
             b = rng.choice([0, 0, 0, 1, 1, 2, 2, -1, 3, 10])
             out.append({"obj": o, "base": b})
@@ -604,7 +645,7 @@ class Malformed(Family):
 
     def gen(self, rng, tier):
         out = []
-        for _ in range(90 if tier == "quick" else 700):
+        for _ in range(150 if tier == "quick" else 1500):
             kind = rng.choice(MUTATIONS)
             w = (1, 1, 1, 1)
             if kind in ("nnz_big", "nnz_small", "sub_oob"):
@@ -776,4 +817,4 @@ def shrink_obj(o):
 
 
 def families():
-    return [Dense(), Sparse(), Ktensor(), Matrix(), IndexBase(), Malformed(), Degenerate()]
+    return [Dense(), Sparse(), Ktensor(), Matrix(), ValueSweep(), IndexBase(), Malformed(), Degenerate()]
